@@ -34,6 +34,8 @@ type localBind struct {
 }
 
 type fnCtx struct {
+	fromMk    *ssa.MakeClosure // this context is the inlined body of that function literal
+	pendingMk *ssa.MakeClosure
 	g      *gen
 	fn     *ssa.Function
 	pfx    string
@@ -343,7 +345,12 @@ func (ws *writeScan) scan(fn *ssa.Function, blocks map[*ssa.BasicBlock]bool, sub
 			switch x := in.(type) {
 			case *ssa.Store:
 				ws.note(ws.resolve(x.Addr, subst, top, 0))
-			case *ssa.MapUpdate, *ssa.Send, *ssa.Go:
+			case *ssa.MapUpdate:
+				ws.effects = true
+				if _, ok := mapModelled(x.Map.Type()); ok {
+					ws.note(ws.resolve(x.Map, subst, top, 0))
+				}
+			case *ssa.Send, *ssa.Go:
 				ws.effects = true
 			case *ssa.Defer:
 				ws.effects = true
@@ -353,6 +360,11 @@ func (ws *writeScan) scan(fn *ssa.Function, blocks map[*ssa.BasicBlock]bool, sub
 				if bi, ok := cc.Value.(*ssa.Builtin); ok {
 					if bi.Name() == "copy" || bi.Name() == "append" {
 						ws.note(ws.resolve(cc.Args[0], subst, top, 0))
+					}
+					if bi.Name() == "delete" {
+						if _, ok := mapModelled(cc.Args[0].Type()); ok {
+							ws.note(ws.resolve(cc.Args[0], subst, top, 0))
+						}
 					}
 					continue
 				}
@@ -755,7 +767,7 @@ func (fc *fnCtx) loopHeader(b *ssa.BasicBlock, c *contract) {
 					continue
 				}
 			}
-			if v.k == kPtr || v.k == kSlice {
+			if v.k == kPtr || v.k == kSlice || (v.k == kOpaque && len(v.t) > 0) {
 				mod = append(mod, v.t[0])
 			}
 		}
@@ -777,6 +789,9 @@ func (fc *fnCtx) loopHeader(b *ssa.BasicBlock, c *contract) {
 				}
 			}
 		}
+		// row 0 is the nil object: it has no contents (every access through nil is a failing safety obligation), but a
+		// callee frame `assigns x.f` with x.f == nil havocs it; it never counts as an object the loop must preserve
+		mod = append(mod, "0")
 		entryH := fc.curH.clone()
 		entryAC := loopACe
 		fresh := g.freshHeap(fmt.Sprintf("loop%d", n))
@@ -1096,7 +1111,7 @@ func (g *gen) finishTop(fc *fnCtx) {
 		}
 		if c.hasAssigns && !c.assumedFrame && !g.lite {
 			sc := fc.specCtxEntry()
-			keep := fmt.Sprintf("(< r %s)", fc.entryAC)
+			keep := fmt.Sprintf("(and (< r %s) (not (= r 0)))", fc.entryAC) // row 0 (nil) is no object
 			for _, a := range c.assigns {
 				v, err := sc.term(a)
 				if err != nil {
